@@ -407,7 +407,9 @@ func c06run(sc *sim.Scenario, env *sim.Env, st *sim.Stats, observe bool) c06resu
 	var kept []keptErr
 	var seg cloneSeg
 	seg.Nested = sc.Seed&8 != 0
-	var mSave *asmModel // the model before the block that is going through a clone
+	var mSave *asmModel       // the model before the block that is going through a clone
+	segStart := -1            // index of the clone op of the block in flight
+	dropped := map[int]bool{} // ops of blocks whose Append was refused: the original never got them
 	for i, op := range sc.Ops {
 		if st != nil {
 			st.SimOps++
@@ -415,6 +417,7 @@ func c06run(sc *sim.Scenario, env *sim.Env, st *sim.Stats, observe bool) c06resu
 		if op.K == "clone" {
 			if !seg.active() {
 				mSave = m.clone()
+				segStart = i
 				room := capacity
 				if room < 1<<14 {
 					room = 1 << 14 // the block itself always fits its own buffer
@@ -457,6 +460,9 @@ func c06run(sc *sim.Scenario, env *sim.Env, st *sim.Stats, observe bool) c06resu
 						return res
 					}
 					m = mSave
+					for j := segStart; j >= 0 && j <= i; j++ {
+						dropped[j] = true
+					}
 					if st != nil {
 						st.Probe("append_refused_then_carried_on")
 						st.Fault("append_refused")
@@ -510,8 +516,8 @@ func c06run(sc *sim.Scenario, env *sim.Env, st *sim.Stats, observe bool) c06resu
 				// Finalize that must fail fails there too (one that would succeed has nowhere to
 				// write its operands, so that case is not asked for)
 				ne := asm.NewEmitter(nil, gentext)
-				for _, o := range sc.Ops[:i] {
-					if o.K != "finalize" && o.K != "clone" && o.K != "append" {
+				for j, o := range sc.Ops[:i] {
+					if o.K != "finalize" && o.K != "clone" && o.K != "append" && !dropped[j] {
 						asmApply(ne, o)
 					}
 				}
